@@ -93,6 +93,7 @@ type GenOpts struct {
 	Bursts      bool // also generate concurrent bursts on one replica (appends || merges || reads)
 	Failures    bool // also generate refused operations (denied appends, rejected merges) and forks
 	Extra       bool // also generate setident / reload steps (C04)
+	HugeOften   bool // with Failures: half of the histories (not an eighth) have replicas whose clocks start at 2^60
 	Hostile     bool // with Failures: also merges of logs that hold a validly signed entry of ANOTHER log id in the middle of their history (C02, C03; the loaders do not filter by log id, so monitors that rebuild logs from storage do not use it)
 	MaxSteps    int
 	Orders      []string
@@ -123,6 +124,9 @@ func Gen(seed int64, idx int, o GenOpts) *History {
 	h.Replicas = 2 + rng.Intn(o.MaxReplicas-1)
 	h.Failures = o.Failures
 	h.HugeClocks = o.Failures && idx%8 == 5
+	if o.Failures && o.HugeOften {
+		h.HugeClocks = idx%2 == 0
+	}
 	h.ReuseOptions = idx%4 >= 2
 	h.Order = o.Orders[rng.Intn(len(o.Orders))]
 	h.Codec = o.Codecs[rng.Intn(len(o.Codecs))]
@@ -483,7 +487,7 @@ func NewExec(h *History) *Exec {
 		x.wipe = wipe
 	}
 	for r := 0; r < h.Replicas; r++ {
-		if h.HugeClocks {
+		if h.HugeClocks && r%2 == 0 { // every other replica: merges then produce logs with a huge GAP in the clock values
 			lo := w.LogOpts(w.LogID)
 			lo.Clock = entry.NewLamportClock(w.Idents[h.ReplicaWriter[r]].PublicKey, 1<<60)
 			l, err := ipfslog.NewLog(w.Store.API(), w.Idents[h.ReplicaWriter[r]], lo)
